@@ -252,6 +252,18 @@ def check_envelope(ctx, x, pad, mode, interp, parabolic):
             ctx.violation('envelope-through-extrema', 'envelope does not pass through the unrefined extrema', case)
             return
         ctx.count('passes_through_extrema')
+    # the default call - without the extrema - is the one the sift makes: it must be the same envelope
+    try:
+        PADMON.arm(n)
+        plain = S.interp_envelope(xin if xin.base is not None else xin.copy(), mode=mode, interp_method=interp, extrema_opts=xo)
+    except Exception as e:
+        ctx.violation('envelope-exception:%s' % type(e).__name__, 'interp_envelope (default call, extrema not returned) raised %s: %s' % (type(e).__name__, str(e)[:100]), case)
+        return
+    ctx.count('default_call_envelopes_compared')
+    if plain is None or np.asarray(plain).shape != env.shape or not np.array_equal(np.asarray(plain, dtype=float), env):
+        ctx.violation('envelope-differs-without-ret_extrema', 'interp_envelope(...) and interp_envelope(..., ret_extrema=True)[0] are different envelopes (max diff %s)'
+                      % ('n/a' if plain is None or np.asarray(plain).shape != env.shape else '%.3g' % np.abs(np.asarray(plain, dtype=float) - env).max()), case)
+        return
     ctx.count('envelope_on_grid' + ('_parabolic' if parabolic else ''))
 
 
